@@ -11,6 +11,9 @@ for f in sorted(glob.glob('/verif/evidence/C??.json')):
     for res in c['self_validation']['results']:
         for v in res.get('violations',[]):
             hit[v.split('|')[0]].add(res['seed'])
+    for res in c.get('rule_controls',{}).get('results',[]):
+        if res.get('result')=='reported by the rule':
+            hit[res['rule']].add('rulectl:'+res['control'])
 un=[r for r in rules if not hit[r]]
 for r in rules: print('%-8s obligations=%-4d seeds=%s'%(r,rules[r],','.join(sorted(hit[r])) or '-'))
 print('rules: %d, exercised by a seed: %d, never exercised: %s'%(len(rules),len(rules)-len(un),' '.join(un)))
